@@ -1063,12 +1063,14 @@ theorem any_isCrypt_of_head (a : List FilterKind) (h1 : cryptBehindFirst a = fal
 
 /-- **crypt_first.**  Whenever `OpenStream` accepts a combination of a dictionary chain and a
 filters argument, the chain written to the file has no Crypt filter behind the first position,
-no Crypt filter other than Identity, and the default encryption is skipped exactly when the
-chain starts with `/Crypt /Identity`. -/
-theorem crypt_first (d a ch : List FilterKind) (skip : Bool)
-    (h : openStreamChain d a = .ok (ch, skip)) :
+no Crypt filter other than Identity, the default encryption is skipped exactly when the chain
+starts with `/Crypt /Identity`, and never in a file that is encrypted without crypt filters
+(/V 1 or 2, where a reader decrypts every stream). -/
+theorem crypt_first (d a ch : List FilterKind) (skip : Bool) (encrypted : Option Bool)
+    (h : openStreamChain d a encrypted = .ok (ch, skip)) :
     ch = d ++ a ∧ cryptBehindFirst ch = false ∧ ch.head? ≠ some .cryptOther ∧
-    (skip = true ↔ ch.head? = some .cryptIdentity) := by
+    (skip = true ↔ ch.head? = some .cryptIdentity) ∧
+    (skip = true → encrypted ≠ some false) := by
   unfold openStreamChain at h
   by_cases c1 : cryptBehindFirst a = true
   · simp [c1] at h
@@ -1080,22 +1082,30 @@ theorem crypt_first (d a ch : List FilterKind) (skip : Bool)
   · simp [c1, c2, c3, c4] at h
   by_cases c5 : (a.head? == some FilterKind.cryptIdentity && !d.isEmpty) = true
   · simp [c1, c2, c3, c4, c5] at h
-  simp only [c1, c2, c3, c4, c5, Bool.false_eq_true, ↓reduceIte, Except.ok.injEq, Prod.mk.injEq] at h
+  by_cases c6 : ((a.head? == some FilterKind.cryptIdentity || d.head? == some FilterKind.cryptIdentity) &&
+      encrypted == some false) = true
+  · simp [c1, c2, c3, c4, c5, c6] at h
+  simp only [c1, c2, c3, c4, c5, c6, Bool.false_eq_true, ↓reduceIte, Except.ok.injEq, Prod.mk.injEq] at h
   obtain ⟨hch, hskip⟩ := h
   subst hch hskip
+  have hav : (a.head? == some FilterKind.cryptIdentity || d.head? == some FilterKind.cryptIdentity) = true →
+      encrypted ≠ some false := by
+    intro hs he
+    apply c6
+    simp [hs, he]
   have c1' : cryptBehindFirst a = false := by simpa using c1
   have c3' : cryptBehindFirst d = false := by simpa using c3
   have c2' : a.head? ≠ some .cryptOther := by simpa using c2
   have c4' : d.head? ≠ some .cryptOther := by simpa using c4
   cases d with
   | nil =>
-    refine ⟨rfl, by simpa using c1', by simpa using c2', by simp⟩
+    refine ⟨rfl, by simpa using c1', by simpa using c2', by simp, hav⟩
   | cons x xs =>
     have c5' : a.head? ≠ some .cryptIdentity := by
       intro h5; simp [h5] at c5
     have ha := any_isCrypt_of_head a c1' c2' c5'
     simp only [cryptBehindFirst] at c3'
-    refine ⟨rfl, ?_, ?_, ?_⟩
+    refine ⟨rfl, ?_, ?_, ?_, hav⟩
     · simp only [List.cons_append, cryptBehindFirst, List.any_append, c3', ha, Bool.or_self]
     · simpa using c4'
     · simp only [List.cons_append, List.head?_cons]
@@ -1110,6 +1120,8 @@ theorem crypt_first (d a ch : List FilterKind) (skip : Bool)
 example : openStreamChain [.other] [.cryptIdentity] = .error .other := rfl
 example : openStreamChain [.cryptOther] [] = .error .other := rfl
 example : openStreamChain [.cryptIdentity, .other] [.other] = .ok ([.cryptIdentity, .other, .other], true) := rfl
+example : openStreamChain [] [.cryptIdentity] (some false) = .error .other := rfl
+example : openStreamChain [] [.cryptIdentity] (some true) = .ok ([.cryptIdentity], true) := rfl
 
 
 /-! ## non-vacuity: the hypotheses can be met
